@@ -175,3 +175,158 @@ def iter_task(pid, ascending):
     if nret == 0:
         out.append(Result(name_base[0], 'vacuity', 'error', detail='no finishing path'))
     return out
+
+
+# ------------------------------------------------------------------ sorted-order iteration: Cache.iterkeys
+def order_axioms():
+    """Bytewise TEXT / BLOB comparison is a strict total order (trusted mathematics about memcmp)."""
+    a, b, c = z3.Strings('ax_a ax_b ax_c')
+    x, y, z = z3.Consts('ax_x ax_y ax_z', BYTES)
+    tl, bl = SM.text_lt, SM.blob_lt
+    return [z3.ForAll([a, b], z3.Not(z3.And(tl(a, b), tl(b, a)))),
+            z3.ForAll([a, b], z3.Or(a == b, tl(a, b), tl(b, a))),
+            z3.ForAll([a, b, c], z3.Implies(z3.And(tl(a, b), tl(b, c)), tl(a, c))),
+            z3.ForAll([x, y], z3.Not(z3.And(bl(x, y), bl(y, x)))),
+            z3.ForAll([x, y], z3.Or(x == y, bl(x, y), bl(y, x))),
+            z3.ForAll([x, y, z], z3.Implies(z3.And(bl(x, y), bl(y, z)), bl(x, z)))]
+
+
+def trichotomy(a, b):
+    nn = lambda x: z3.Not(SM.DbVal.is_Null(x))
+    return z3.Implies(z3.And(nn(a), nn(b)), z3.Or(SM.sql_lt(a, b), SM.sql_lt(b, a), SM.sql_eq(a, b)))
+
+
+def dbval_order_lemma():
+    """SQLite's comparison is total on non-NULL values: proved once here (z3, using the TEXT/BLOB order
+    axioms) and then used as a quantified fact in the iterkeys obligations."""
+    a, b = z3.Consts('lem_a lem_b', SM.DbVal)
+    r = discharge('C03.lemma.dbval_trichotomy', 'lemma', order_axioms(), trichotomy(a, b), function='SQLite comparison (model)')
+    return [r]
+
+
+def iterkeys_task(pid, reverse):
+    ctx = cctx()
+    sql = ctx.sql
+    ORDER = [('key', 'DESC' if reverse else 'ASC'), ('raw', 'DESC' if reverse else 'ASC')]
+
+    class _T0:
+        w = None
+
+    def le(st, a, b):
+        T0 = type('T', (), {'w': c03.world0(st)})
+        return sql.ord_le(T0, ORDER, a, b)
+
+    def covered(st, q, c):
+        w0 = c03.world0(st)
+        return z3.And(z3.Select(w0['T.live'], q), le(st, q, c))
+
+    def unchanged(st):
+        w, w0 = st.world, c03.world0(st)
+        return z3.And(*[w[k] == w0[k] for k in w0 if k.startswith(('T.', 'S.'))])
+
+    def cursor_cells(st, fr, c):
+        w0 = c03.world0(st)
+        k, r = fr.locals['key'], fr.locals['raw']
+        return z3.And(k.t == z3.Select(w0['T.key'], c), int_term(r) == z3.If(z3.Select(w0['T.raw'], c), 1, 0),
+                      z3.Select(w0['T.live'], c))
+
+    def outer_inv(it, fr, _):
+        st = it.st
+        q = z3.Int('q_ik')
+        c = st.world['Y.last']
+        Y = st.world['Y.member']
+        return z3.And(unchanged(st), z3.ForAll([q], z3.Select(Y, q) == covered(st, q, c)), cursor_cells(st, fr, c))
+
+    def inner_inv(it, fr, j):
+        st = it.st
+        q = z3.Int('q_ik2')
+        rows = fr.locals['rows']
+        Y = st.world['Y.member']
+        c0 = st.ghost['cursor0']
+        before = z3.And(z3.Select(rows.member, q), z3.Select(rows.pos, q) < j)
+        last = z3.If(j == 0, c0, z3.Select(rows.rows, j - 1))
+        return z3.And(unchanged(st), z3.ForAll([q], z3.Select(Y, q) == z3.Or(covered(st, q, c0), before)),
+                      st.world['Y.last'] == last, cursor_cells(st, fr, last))
+
+    def shape_cell(st):
+        return cc.DbCell(st.fresh('key_cell', SM.DbVal))
+    qn = 'diskcache.core.Cache.iterkeys'
+    shapes = {'rows': lambda st: None, 'key': shape_cell, 'raw': lambda st: st.fresh_sv('raw', 'int')}
+
+    def on_havoc(it, fr):
+        it.st.ghost['inv_arrays'] = None
+    ctx.loop_invariants[(qn, 0)] = LoopSpec('iterkeys.pages', outer_inv, havoc_world=('Y.member', 'Y.last'), shapes=shapes, on_havoc=on_havoc)
+
+    def on_bind(it, fr, i):
+        it.st.ghost['cur_row'] = z3.Select(fr.locals['rows'].rows, i)
+    ctx.loop_invariants[(qn, 1)] = LoopSpec('iterkeys.page', inner_inv, havoc_world=('Y.member', 'Y.last'),
+                                           shapes={'key': shape_cell, 'raw': lambda st: st.fresh_sv('raw', 'int')}, on_bind=on_bind)
+    name_base = '%s.iterkeys[%s]' % (pid, 'reverse' if reverse else 'forward')
+    axioms = order_axioms()
+
+    def body(st):
+        sql.busy = False
+        sql.faults = False
+        it = ctx.interp(st)
+        cache = make_cache(ctx, st, policy='none')
+        for ax in axioms:
+            st.assume(ax)
+        la, lb = z3.Consts('tri_a tri_b', SM.DbVal)
+        st.assume(z3.ForAll([la, lb], trichotomy(la, lb)))       # proved as C03.lemma.dbval_trichotomy
+        st.world['Y.member'] = z3.K(_I, z3.BoolVal(False))
+        st.world['Y.last'] = z3.IntVal(0)
+
+        def on_yield(it2, fr, v):
+            w0 = c03.world0(st)
+            rid = st.ghost.get('cur_row')
+            if rid is None:
+                sel = [e[1] for e in st.trace if e[0] == 'SELECT_FIRST']
+                rid = sel[-1]['rowid']
+            first = not any(e[0] == 'YIELD' for e in st.trace)
+            if not first:
+                last = st.world['Y.last']
+                st.check('%s.order' % name_base, 'post', z3.And(le(st, last, rid), z3.Not(le(st, rid, last))))
+            st.check('%s.decodes_row' % name_base, 'post',
+                     z3.And(z3.Select(w0['T.live'], rid),
+                            to_pyobj(v) == cc.KGET(z3.Select(w0['T.key'], rid), z3.Select(w0['T.raw'], rid))))
+            st.world['Y.member'] = z3.Store(st.world['Y.member'], rid, z3.BoolVal(True))
+            st.world['Y.last'] = rid
+            st.ghost['cur_row'] = None
+            st.effect('YIELD', rowid=rid)
+        it.on_yield = on_yield
+        orig = sql.select_page
+
+        def sp(it2, T, ps, params):
+            page = orig(it2, T, ps, params)
+            st.ghost['cursor0'] = st.world['Y.last']
+            return page
+        sql.select_page = sp
+        ys = []
+        try:
+            it.call_function(ctx.func('diskcache.core.Cache.iterkeys'), [cache, reverse], {}, gen_record=ys)
+        finally:
+            sql.select_page = orig
+        return ys
+    out = []
+    nret = 0
+    for n, p in enumerate(explore(body, max_paths=2000)):
+        st = p.state
+        base = '%s#%d' % (name_base, n)
+        for o in st.obligations:
+            out.append(discharge('%s/%s' % (base, o.name), o.kind, o.pc, o.goal, function='Cache.iterkeys', path=p.decisions))
+        if p.kind == 'cut':
+            continue
+        if p.kind != 'return':
+            r = discharge(base + '.no_exception', 'post', p.pc, z3.BoolVal(False), function='Cache.iterkeys', path=p.decisions)
+            r['detail'] = 'raises %r' % (p.value,) if r['verdict'] != 'proved' else None
+            out.append(r)
+            continue
+        nret += 1
+        w0 = c03.world0(st)
+        q = z3.Int('q_done2')
+        out.append(discharge(base + '.complete', 'post', p.pc,
+                             z3.ForAll([q], z3.Select(st.world['Y.member'], q) == z3.Select(w0['T.live'], q)),
+                             function='Cache.iterkeys', path=p.decisions))
+    if nret == 0:
+        out.append(Result(name_base, 'vacuity', 'error', detail='no finishing path'))
+    return out
